@@ -244,6 +244,53 @@ fn exec(c: &Case, line: &str, rec: &mut Recorder) -> String {
                 }
             }
         }
+        ["big", cv] => {
+            // a large value given by its compact description: through the real send closure, then the plain receive
+            // closure (o2o), the member-id tagged receive closure (m2o) and the demux send closure + `demux_map` +
+            // tagged receive closure (m2m).  The answer carries length and checksum of the bytes instead of the bytes.
+            let Some(v) = parse_cval(cv) else { return bad };
+            match c.chan.enc(&v) {
+                None => bad,
+                Some(Err(e)) => {
+                    rec.check(false, "send-closure-panicked", &e);
+                    "panic".into()
+                }
+                Some(Ok(bytes)) => {
+                    rec.count("big");
+                    rec.count(match bytes.len() {
+                        0..=65535 => "big-le-64KiB",
+                        65536..=131071 => "big-64KiB-128KiB",
+                        131072..=1048575 => "big-128KiB-1MiB",
+                        _ => "big-ge-1MiB",
+                    });
+                    let what = format!("ty={} encoded-bytes={} value={}", c.chan.name(), bytes.len(), &cv[..cv.len().min(80)]);
+                    let lib = c.chan.reference_bytes(&v).unwrap();
+                    rec.check(lib == bytes, "send-closure-bytes-differ-from-bincode-serialize", &what);
+                    let o2o = match c.chan.dec(&bytes) {
+                        Ok(back) if back == v => "ok".to_string(),
+                        Ok(_) => "differs".into(),
+                        Err(e) => format!("recv-panic[{}]", short(&e)),
+                    };
+                    rec.check(o2o == "ok", "large-payload-o2o-receiver-does-not-reconstruct-the-value", &format!("{what} -> {o2o}"));
+                    let sender = 3;
+                    let m2o = match c.chan.m2o(sender, std::slice::from_ref(&v)) {
+                        Some(Ok(res)) if res.len() == 1 && res[0].0 == sender && res[0].1 == v => "ok".to_string(),
+                        Some(Ok(_)) => "differs".into(),
+                        Some(Err(e)) => format!("panic[{}]", short(&e)),
+                        None => "bad".into(),
+                    };
+                    rec.check(m2o == "ok", "large-payload-m2o-receiver-does-not-reconstruct-the-tagged-value", &format!("{what} -> {m2o}"));
+                    let m2m = match c.chan.m2m(2, sender, &[(1, v.clone())]) {
+                        Some(Ok(res)) if res.len() == 2 && res[0].is_empty() && res[1].len() == 1 && res[1][0].0 == sender && res[1][0].1 == v => "ok".to_string(),
+                        Some(Ok(_)) => "differs".into(),
+                        Some(Err(e)) => format!("panic[{}]", short(&e)),
+                        None => "bad".into(),
+                    };
+                    rec.check(m2m == "ok", "large-payload-m2m-addressed-member-does-not-get-the-tagged-value", &format!("{what} -> {m2m}"));
+                    format!("len={} ck={} o2o={o2o} m2o={m2o} m2m={m2m}", bytes.len(), ck(&bytes))
+                }
+            }
+        }
         ["dec", h] => {
             let Some(b) = unhex(h) else { return bad };
             match c.chan.dec(&b) {
@@ -421,8 +468,53 @@ fn gen_case(n: u64, rng: &mut Rng, tier: &str) -> Vec<String> {
     lines
 }
 
+fn short(e: &str) -> String {
+    e.split_whitespace().collect::<Vec<_>>().join("_").chars().take(60).collect()
+}
+
+/// sizes (bytes of the encoding) the large-payload cases aim at
+fn big_targets(tier: &str) -> Vec<u64> {
+    let mut t = vec![65535, 65536, 70 << 10, 200 << 10, 1 << 20];
+    if tier == "thorough" {
+        t.extend([65537, 128 << 10, 2 << 20, 3 << 20, 4 << 20]);
+    }
+    t
+}
+
+/// channels whose payload type can carry a large value
+fn big_chans() -> Vec<&'static dyn Chan> {
+    chans().into_iter().filter(|c| has_big(&c.ty())).collect()
+}
+
+fn big_case_count(tier: &str) -> u64 {
+    (big_chans().len() * big_targets(tier).len()) as u64 * if tier == "thorough" { 3 } else { 1 }
+}
+
+/// the `j`-th large-payload case: channel x target size (x repetition), a random spine through the type
+fn gen_big_case(n: u64, j: u64, rng: &mut Rng, tier: &str) -> Vec<String> {
+    let cs = big_chans();
+    let ts = big_targets(tier);
+    let chan = cs[(j as usize) % cs.len()];
+    let target = ts[(j as usize / cs.len()) % ts.len()];
+    let ty = chan.ty();
+    let mut lines = vec![format!("#case {n} ty={} members=2 chan={} big={target}", show_ty(&ty), chan.name())];
+    for _ in 0..rng.range(1, 2) {
+        let Some(spine) = gen_spine(&ty, rng) else { continue };
+        // encoded length is affine in the repeat count
+        let len_at = |k: u64| parse_cval(&spine.replace("{N}", &k.to_string())).and_then(|v| chan.reference_bytes(&v)).map(|b| b.len() as u64);
+        let (Some(l0), Some(l1)) = (len_at(0), len_at(1)) else { continue };
+        if l1 <= l0 {
+            continue;
+        }
+        let count = if target > l0 { (target - l0).div_ceil(l1 - l0) } else { 1 };
+        lines.push(format!("big {}", spine.replace("{N}", &count.to_string())));
+    }
+    lines
+}
+
 fn run_lines(lines: &[String], rec: &mut Recorder) {
     let mut cur: Option<Case> = None;
+    let mut dm: Option<crate::c35_dm::DmCase> = None;
     let cs = chans();
     let mut nontrivial = false;
     for l in lines {
@@ -435,6 +527,12 @@ fn run_lines(lines: &[String], rec: &mut Recorder) {
             let n: u64 = ws[0].parse().unwrap_or(0);
             rec.case(n, &ws[1..].join(" "));
             let tag = |k: &str| ws.iter().find_map(|w| w.strip_prefix(&format!("{k}=")).map(|s| s.to_string()));
+            dm = None;
+            if tag("dm").is_some() {
+                cur = None;
+                dm = crate::c35_dm::DmCase::new(&ws[1..]);
+                continue;
+            }
             let chan = tag("chan").and_then(|c| chan_by_name(&c)).or_else(|| {
                 let t = tag("ty")?;
                 cs.iter().copied().find(|c| show_ty(&c.ty()) == t)
@@ -454,9 +552,10 @@ fn run_lines(lines: &[String], rec: &mut Recorder) {
             }
             continue;
         }
-        let out = match &cur {
-            Some(c) => exec(c, l, rec),
-            None => "bad-op".to_string(),
+        let out = match (&mut dm, &cur) {
+            (Some(d), _) => d.exec(l, rec),
+            (None, Some(c)) => exec(c, l, rec),
+            (None, None) => "bad-op".to_string(),
         };
         if out != "bad-op" && out != "err" {
             nontrivial = true;
@@ -469,7 +568,7 @@ fn run_lines(lines: &[String], rec: &mut Recorder) {
 }
 
 pub fn main(args: &Args) {
-    let mut rec = Recorder::new("a case is non-trivial if at least one op went through a generated closure and produced bytes / a value / a delivery");
+    let mut rec = Recorder::new("a case is non-trivial if at least one op went through a generated closure (or, demux cases, through the real DemuxMap) and produced bytes / a value / a delivery / a poll answer");
     if let Some(p) = &args.replay {
         let lines = hv_common::read_lines(p);
         run_lines(&lines, &mut rec);
@@ -479,6 +578,24 @@ pub fn main(args: &Args) {
             let mut rng = base.fork(n);
             let lines = gen_case(n, &mut rng, &args.tier);
             run_lines(&lines, &mut rec);
+        }
+        if args.cases > 0 {
+            // large payloads (every channel that can carry one x every target size), then `DemuxMap` under
+            // back-pressure (bounded-exhaustive scopes, then random cases)
+            let mut n = args.cases;
+            for j in 0..big_case_count(&args.tier) {
+                n += 1;
+                let mut rng = base.fork(n);
+                let lines = gen_big_case(n, j, &mut rng, &args.tier);
+                run_lines(&lines, &mut rec);
+            }
+            for j in 0..crate::c35_dm::case_count(&args.tier) {
+                n += 1;
+                let mut rng = base.fork(n);
+                let mut lines = crate::c35_dm::gen_case(j, &mut rng, &args.tier);
+                lines[0] = format!("#case {n} {}", lines[0]);
+                run_lines(&lines, &mut rec);
+            }
         }
     }
     rec.finish(&args.out);
